@@ -51,13 +51,6 @@ theorem known_C09_comp_has_excluded_pairs :
       lookup NormRef.compTable r.1 = none) := by
   decide +kernel
 
-theorem decompTable_sorted : sortedKeys Norm.decompTable = true := by decide +kernel
-theorem compTable_sorted : sortedKeys Norm.compTable = true := by decide +kernel
-
-theorem comp_rows_in_decomp :
-    isSubseq (msort 12 (Norm.compTable.map (fun r => (r.2, r.1 / 2 ^ 32, r.1 % 2 ^ 32)))) Norm.decompTable = true := by
-  decide +kernel
-
 /-- Consistency of the crate's tables: both are strictly sorted by key, hence the binary searches of
     `unicode::compose` / `unicode::decompose` return the row with that key, if any (generic lemma
     `bsearchGo_eq_lookup`); and composition is the inverse of decomposition: a table hit
@@ -232,5 +225,65 @@ example :
     let mk (cp cl ccc : Nat) : Info := { cp := cp, mask := 0, cluster := cl, gidx := 0, props := { cls := 1, hi := ccc } }
     sortGo genK [] 2 [mk 0x301 1 230, mk 0x323 2 220] = [mk 0x323 1 220, mk 0x301 1 230] := by
   decide
+
+/-! ## the recomposition round -/
+
+/-- **Third round on `starter + marks`** (every mark has a non-zero modified ccc, so the starter never
+    moves): the output code points are the final starter followed by the marks that were not absorbed,
+    as computed by `recomposeSpec` (Lemmas/Norm.lean) from code points and classes alone: going left to
+    right, a mark `m` is absorbed into the current starter `a` iff it is not blocked (no mark kept so
+    far, or the last kept mark has a smaller class), `comp a m` is defined and the font maps the result
+    (see `C09_recompose_step` for this reading of the spec). -/
+theorem C09_recompose (U : UData) (F : Font) (K : Consts) (s : Info) (marks : List Info) (flags : Nat)
+    (hm : ∀ m ∈ marks, m.isMark = true ∧ m.mcc ≠ 0) :
+    (round3 U F K (s :: marks) flags).1.map (·.cp) =
+      (recomposeSpec U.comp F.has s.cp [] (marks.map cm)).1 ::
+        (recomposeSpec U.comp F.has s.cp [] (marks.map cm)).2.map (·.1) := by
+  have := round3Go_spec U F K marks [] s [] flags hm
+  simpa [round3] using this
+
+example : ∃ marks : List Info, marks ≠ [] ∧ ∀ m ∈ marks, m.isMark = true ∧ m.mcc ≠ 0 :=
+  ⟨[{ cp := 0x301, mask := 0, cluster := 1, gidx := 0, props := { cls := 1, hi := 230 } }], by simp, by
+    intro m hm; simp only [List.mem_singleton] at hm; subst hm; decide⟩
+
+/-- the spec, one mark at a time: absorbed iff unblocked, `comp` defined, result mapped by the font -/
+theorem C09_recompose_step (comp : Nat → Nat → Option Nat) (has : Nat → Bool) (a : Nat)
+    (kept : List (Nat × Nat)) (m : Nat × Nat) (ms : List (Nat × Nat)) :
+    (∀ c, unblockedCm kept m = true → comp a m.1 = some c → has c = true →
+      recomposeSpec comp has a kept (m :: ms) = recomposeSpec comp has c kept ms) ∧
+    ((unblockedCm kept m = false ∨ comp a m.1 = none ∨ (∃ c, comp a m.1 = some c ∧ has c = false)) →
+      recomposeSpec comp has a kept (m :: ms) = recomposeSpec comp has a (kept ++ [m]) ms) := by
+  constructor
+  · intro c h1 h2 h3
+    simp [recomposeSpec, h1, h2, h3]
+  · intro h
+    rcases h with h | h | ⟨c, h1, h2⟩
+    · simp [recomposeSpec, h]
+    · rw [recomposeSpec]
+      split <;> simp_all
+    · rw [recomposeSpec]
+      split <;> simp_all
+
+/-! ## C08, normalizer part: the first two rounds keep canonical equivalence -/
+
+/-- Whatever `decompose` outputs for `c` (either mode), decomposed to the end, is the full canonical
+    decomposition of `c` (`FullDecomp`: the chain of first components with the second components
+    appended): the output is `a :: bs` with `full(c) = full(a) ++ bs`.  Together with (3) of
+    `C09_sort_canonical` (the reorder round permutes inside runs of non-starters) this is the committed
+    part of C08's `norm_equiv`; the recomposition round is characterised by `C09_recompose` but its
+    canonical equivalence (which needs `C09_tables_consistent` for the data) is not proved here. -/
+theorem C09_decompose_equiv (U : UData) (F : Font) (shortest : Bool) (fuel c : Nat) (r : List (Nat × Nat))
+    (h : decompose U F shortest fuel c = some r) (hr : r ≠ []) (l : List Nat) (hl : FullDecomp U c l) :
+    ∃ a bs la, r.map (·.1) = a :: bs ∧ FullDecomp U a la ∧ l = la ++ bs := by
+  cases shortest with
+  | true =>
+    obtain ⟨k, hk, _, _⟩ := (decompose_shortest U F fuel c r h).1 hr
+    exact hk.full hl
+  | false =>
+    obtain ⟨k, hk, _, _⟩ := (decompose_full U F fuel c r h).1 hr
+    exact hk.full hl
+
+example : ∃ r, decompose genU { glyph := fun c => if c = 0x41 ∨ c = 0x300 then some 1 else none } true genFuel 0xC0 = some r ∧
+    r ≠ [] := ⟨[(0x41, 1), (0x300, 1)], by decide +kernel, by simp⟩
 
 end RbModel.Props.C09
